@@ -46,7 +46,7 @@ func DefaultGen(d D) *Gen {
 }
 
 func (g *Gen) pick(xs []string, label string) string {
-	return xs[g.D.Int(0, len(xs)-1, label)]
+	return xs[g.D.Uni(len(xs), label)]
 }
 
 func (g *Gen) key(label string) *idempotency.Key {
@@ -68,7 +68,7 @@ func (g *Gen) kind() string {
 		}
 	}
 	sort.Strings(names)
-	v := g.D.Int(0, total-1, "kind")
+	v := g.D.Uni(total, "kind")
 	for _, n := range names {
 		if v < g.W[n] {
 			return n
